@@ -28,7 +28,7 @@ CONSTANTS
     AtkBodies,      \* symlink bodies the attacker may create
     AtkKinds,       \* subset of {"rename", "exchange", "unlink", "symlink", "mkdir"}
     \* mechanism switches (all TRUE = the code as written); see DESIGN.md 4.3
-    ChkAfterDotDot, ChkFinal, ClampDotDot, RestartAbsAtRoot, NoFollowOnOpen,
+    ChkAfterDotDot, ChkFinal, ClampDotDot, RestartAbsAtRoot, NoFollowOnOpen, TrailingSlashIsDirTest,
     EmptyPathIsENOENT, EmitCases
 
 VARIABLES
@@ -53,7 +53,9 @@ MkFs(nodes) ==
      body  |-> [i \in Ino |->
                   IF \E j \in DOMAIN nodes : nodes[j].id = i /\ nodes[j].k = "lnk"
                   THEN nodes[CHOOSE j \in DOMAIN nodes : nodes[j].id = i].b
-                  ELSE <<>>]]
+                  ELSE <<>>],
+     \* directories the (unprivileged) caller of this tree may not search: nodes with a field nx = TRUE
+     nox   |-> {nodes[i].id : i \in {j \in DOMAIN nodes : "nx" \in DOMAIN nodes[j] /\ nodes[j].nx}}]
 
 NoRes == [ok |-> FALSE, err |-> "none"]
 
@@ -96,8 +98,19 @@ E_Start ==  \* imp.rs:189-212  (dup of the root: no shared-state access)
             /\ UNCHANGED res
     /\ UNCHANGED <<nxt, part, rootPath, retries>>
 
-E_Classify ==  \* imp.rs:213-273  (no syscall)
+\* trailing "/"s are no components: they only ask for a directory (the kernel's LOOKUP_DIRECTORY), answered by an fstat of
+\* what has been reached (one per trailing empty component) -- no search permission on it is needed, unlike for ".".
+\* While the walk still holds its own duplicate of the root handle (nothing has been opened yet: "/", "//") the code goes
+\* through "." instead, so that it never returns that duplicate; the model allows either step at the root inode.
+AllEmpty(r) == r # <<>> /\ \A i \in DOMAIN r : r[i] = ""
+E_ClassifyTrail ==
+    /\ pc = "loop" /\ backend = "emulated" /\ TrailingSlashIsDirTest /\ AllEmpty(rem)
+    /\ rem' = Tail(rem) /\ UNCHANGED <<cur, exp, part>>
+    /\ IF IsDir(fs, cur) THEN pc' = "loop" /\ UNCHANGED res ELSE Finish(Err("ENOTDIR"))
+    /\ UNCHANGED <<ntrav, nxt, rootPath, retries>>
+E_ClassifyStep ==  \* imp.rs:213-273  (no syscall)
     /\ pc = "loop" /\ backend = "emulated"
+    /\ ~(TrailingSlashIsDirTest /\ AllEmpty(rem) /\ cur # R)
     /\ IF rem = <<>> THEN
             /\ pc' = IF ChkFinal THEN "fin1" ELSE "fin_ok"
             /\ UNCHANGED <<cur, exp, rem, part>>
@@ -113,6 +126,7 @@ E_Classify ==  \* imp.rs:213-273  (no syscall)
                ELSE IF p = "." THEN pc' = "open" /\ UNCHANGED <<cur, exp>>
                ELSE exp' = Append(exp, p) /\ pc' = "open" /\ UNCHANGED cur
     /\ UNCHANGED <<ntrav, nxt, rootPath, retries, res>>
+E_Classify == E_ClassifyTrail \/ E_ClassifyStep
 
 \* openat(current, part, O_PATH|O_NOFOLLOW)            imp.rs:277-296
 E_OpenNext ==
